@@ -243,6 +243,14 @@ def parseCacheOp (ws : List String) : Option (Nat × Cache.Op) :=
         match ints r with
         | some [t, a, b] => some (rid, .tr t a b)
         | _ => none
+      | ["cd", c, lo, hi, s, e] =>
+        match c.toInt?, optPair lo hi, optPair s e with
+        | some c, some rng, some win => some (rid, .cd c rng win)
+        | _, _, _ => none
+      | ["ad", c, lo, hi, s, e] =>
+        match c.toInt?, optPair lo hi, optPair s e with
+        | some c, some rng, some win => some (rid, .ad c rng win)
+        | _, _, _ => none
       | _ => none
   | [] => none
 
